@@ -735,6 +735,19 @@ fn main() {
             }
         }
         // vh show <gen> <idx>: the source and configuration of a case
+        // vh flat <family> <n>: the source of a flat-family case (C18)
+        "flat" => {
+            print!("{}", gens::flat_case(&args[2], args[3].parse().unwrap_or(1)));
+        }
+        "flat1" => {
+            let h = std::thread::Builder::new().stack_size(1 << 30).spawn({
+                let (f, n) = (args[2].clone(), args[3].parse().unwrap_or(1));
+                move || other::flat1(&f, n)
+            });
+            if !h.unwrap().join().unwrap_or(false) {
+                std::process::exit(1);
+            }
+        }
         "show" => {
             let fx = Fixtures::load(FIXTURE_ROOT, true);
             let gen: &'static str = match args[2].as_str() { "fix" => "fix", "gram" => "gram", "exh" => "exh", "imp" => "imp", "nest" => "nest", "tab" => "tab", "raw" => "raw", "exh2" => "exh2", "nl" => "nl", "mut" => "mut", "corp" => "corp", _ => "mal" };
